@@ -196,8 +196,11 @@ impl Mac {
         }?;
         let (mut tx_config, tx_channel) =
             self.region.create_tx_config(rng, self.configuration.data_rate, &Frame::Data);
+        // The level commanded by the network never lifts the limit of the radio itself
         tx_config.adjust_power(
-            self.configuration.tx_power.unwrap_or(self.board_eirp.max_power),
+            self.configuration
+                .tx_power
+                .map_or(self.board_eirp.max_power, |p| p.min(self.board_eirp.max_power)),
             self.board_eirp.antenna_gain,
         );
         Ok((tx_config, self.rx_windows(&tx_channel), fcnt))
